@@ -49,7 +49,8 @@ Deviations == { "SweepKeepsEntries",        \* final sweep completes but does no
                 "SweepSkips",               \* sweep misses an entry
                 "UnorderedFinish",          \* completion queue has more than one worker
                 "UnorderedExec",            \* pipelined server runs handlers concurrently
-                "DispatchKeepsEntry" }      \* dispatch does not remove the entry it completes
+                "DispatchKeepsEntry",       \* dispatch does not remove the entry it completes
+                "SeqReuse" }                \* sequence number not advanced under the lock
 
 ASSUME Dev \subseteq Deviations
 ASSUME Pings \subseteq Calls /\ CtxCalls \subseteq Calls \ Pings /\ FailCalls \subseteq Calls \ Pings
@@ -231,11 +232,11 @@ Refuse(c) ==
     /\ UNCHANGED <<wvars, svars, bvars, issued, slog, wresp>>
 
 \* ... otherwise allocate the sequence number and insert into the table.
-Register(c, dNoRefuse) ==
+Register(c, dNoRefuse, dSeqReuse) ==
     /\ cst[c] = "sending"
     /\ (~(shutdown \/ closing) \/ dNoRefuse)
     /\ seqof' = [seqof EXCEPT ![c] = cseq]
-    /\ cseq' = cseq + 1
+    /\ cseq' = IF dSeqReuse THEN cseq ELSE cseq + 1
     /\ pending' = pending \cup {c}
     /\ cst' = [cst EXCEPT ![c] = "reg"]
     /\ UNCHANGED <<closing, shutdown, codecClosed, sockClosed, wq, rdq, fin, rd, ncomp, res, res0, ctxst>>
@@ -461,6 +462,15 @@ SrvDecode(dPing, dDup) ==
                  /\ sdone' = sdone
     /\ UNCHANGED <<cvars, wvars, sexec, seof, bvars, hvars>>
 
+\* After the end of the stream the teardown closes the server codec; requests still on the
+\* decode queue then fail to decode and are dropped (a request immediately followed by EOF
+\* may legitimately be dropped: the connection is no longer live).
+SrvDrop ==
+    /\ seof /\ sdq # <<>>
+    /\ ~SrvPingBusy
+    /\ sdq' = Tail(sdq)
+    /\ UNCHANGED <<cvars, wvars, sxq, sexec, sdone, seof, bvars, hvars>>
+
 SrvExecBegin(c, dUnordered) ==
     /\ \E j \in 1..Len(sxq) : sxq[j].c = c
     /\ LET i == FirstIdx(sxq, c) IN
@@ -492,7 +502,7 @@ SrvRespond(c, dWrongSeq) ==
 LibraryStep ==     \* steps the library takes by itself (fairness applies to these only)
     \/ \E c \in Calls : WqTake(c)
     \/ \E c \in Calls : Refuse(c) \/ WriteOK(c)
-    \/ \E c \in Calls : \E d \in DevChoice("NoRefuseAfterShutdown") : Register(c, d)
+    \/ \E c \in Calls : \E d1 \in DevChoice("NoRefuseAfterShutdown") : \E d2 \in DevChoice("SeqReuse") : Register(c, d1, d2)
     \/ \E c \in Calls : \E d \in DevChoice("WriteFailAlwaysCompletes") : WriteFailClosed(c, d)
     \/ ReaderRecv
     \/ \E d1 \in DevChoice("ErrorInline") : \E d2 \in DevChoice("DispatchKeepsEntry") : ReaderDispatch(d1, d2)
@@ -501,7 +511,7 @@ LibraryStep ==     \* steps the library takes by itself (fairness applies to the
             \E d3 \in DevChoice("SweepSkips") : ReaderEOF(FALSE, d1, d2, d3)
     \/ Close2a \/ Close2b
     \/ \E c \in Calls : CtxReturnDone(c)
-    \/ SrvRecv \/ SrvEOF
+    \/ SrvRecv \/ SrvEOF \/ SrvDrop
     \/ \E d1 \in DevChoice("PingRunsHandler") : \E d2 \in DevChoice("DupExec") : SrvDecode(d1, d2)
     \/ \E c \in Calls : \E d \in DevChoice("UnorderedExec") : SrvExecBegin(c, d)
     \/ \E c \in Calls : \E d \in DevChoice("EchoWrongSeq") : SrvRespond(c, d)
@@ -594,16 +604,19 @@ IsSubSeqOf(s, t) ==   \* s is obtained from t by deleting elements
                    ELSE IF s[i] = t[j] THEN P(i+1, j+1) ELSE P(i, j+1)
     IN P(1, 1)
 SelectCalls(s, S) == SelectSeq(s, LAMBDA x : x \in S)
-ExecInOrder == SrvPipe /\ CliPipe => IsSubSeqOf(slog, issued)
+\* Order is promised to the asynchronous calls one goroutine issues (the blocking forms run in
+\* goroutines of their own and reach the write queue in no fixed order).
+AsyncCalls == {c \in Calls : Async(c)}
+ExecInOrder == SrvPipe /\ CliPipe => IsSubSeqOf(SelectCalls(slog, AsyncCalls), issued)
 AtMostOneExecuting ==
     SrvPipe => Cardinality(sexec) + Cardinality({f \in sdone : f.k # "ping"}) <= 1
 \* (a heartbeat has no handler: it is answered by the decode worker itself and is not a
 \*  "request executed" in the sense of the property; order is required of requests)
 RespInOrder ==
     SrvPipe /\ CliPipe =>
-        IsSubSeqOf(SelectCalls([i \in 1..Len(wresp) |-> wresp[i].c], Calls \ Pings), issued)
+        IsSubSeqOf(SelectCalls([i \in 1..Len(wresp) |-> wresp[i].c], AsyncCalls), issued)
 \* response-driven completions (success or server-reported error) in issue order
-RespDriven == {c \in Calls \ Pings : res0[c].kind \in {"ok", "srverr"}}
+RespDriven == {c \in AsyncCalls : res0[c].kind \in {"ok", "srverr"}}
 CompInOrder == SrvPipe /\ CliPipe => IsSubSeqOf(SelectCalls(comps, RespDriven), issued)
 
 \* ---- C06: errors reach exactly the failing call, verbatim
